@@ -28,6 +28,7 @@ type specEnv struct {
 	clause      *Clause
 	specDepth   int
 	callID      *Term
+	ifaceNames  []string
 	bound       map[string]bool // names bound by quantifiers / let: they shadow program variables
 }
 
@@ -836,7 +837,19 @@ func (env *specEnv) evalCall(t *ast.CallExpr) Value {
 			if c == nil || !c.Pure {
 				env.fail("interface method %s has no pure contract", key)
 			}
-			return env.pureApp(key, args, mf.Type().(*types.Signature).Results())
+			msig := mf.Type().(*types.Signature)
+			inames := []string{"recv"}
+			for i := 0; i < msig.Params().Len(); i++ {
+				n := msig.Params().At(i).Name()
+				if n == "" || n == "_" {
+					n = fmt.Sprintf("arg%d", i)
+				}
+				inames = append(inames, n)
+			}
+			env.ifaceNames = inames
+			r := env.pureApp(key, args, msig.Results())
+			env.ifaceNames = nil
+			return r
 		}
 		fn := eng.lookupMethod(recv.T, sel.Sel.Name)
 		if fn == nil {
@@ -883,7 +896,60 @@ func (env *specEnv) pureApp(key string, args []Value, results *types.Tuple) Valu
 		}
 	}
 	wellFormed(res.C, results)
+	env.pureEnsures(key, args, res, results)
 	return res
+}
+
+var pureFactsDone = map[int]bool{}
+
+// pureEnsures attaches the ensures clauses of a pure contract to an application used in a spec.
+func (env *specEnv) pureEnsures(key string, args []Value, res Value, results *types.Tuple) {
+	c := env.ex.eng.cs.Funcs[key]
+	if c == nil || len(c.Ensures) == 0 || len(res.C) == 0 || res.C[0].bound {
+		return
+	}
+	if pureFactsDone[res.C[0].id] {
+		return
+	}
+	pureFactsDone[res.C[0].id] = true
+	var names []string
+	if fn := env.ex.eng.lookupFunc(key); fn != nil {
+		names = paramNames(fn)
+	} else if c.IsIface {
+		if env.ifaceNames != nil {
+			names = env.ifaceNames
+		} else {
+			names = append(names, "recv")
+			for i := 1; i < len(args); i++ {
+				names = append(names, fmt.Sprintf("arg%d", i-1))
+			}
+		}
+	} else if names = env.ex.eng.sigParamNames(key); names == nil {
+		return
+	}
+	vars := map[string]Value{}
+	for i, n := range names {
+		if i < len(args) {
+			vars[n] = args[i]
+		}
+	}
+	bindResults(vars, res, results)
+	func() {
+		defer func() {
+			if x := recover(); x != nil {
+				if _, ok := x.(unsupported); !ok {
+					panic(x)
+				}
+			}
+		}()
+		ne := &specEnv{ex: env.ex, st: env.st, old: env.st, vars: vars, pkgPath: c.PkgPath, calleeCtx: true, specDepth: env.specDepth + 1}
+		for _, en := range c.Ensures {
+			f := ne.evalBool(en.Expr)
+			if !f.bound {
+				AddFact(res.C[0], f)
+			}
+		}
+	}()
 }
 
 // callGo: a Go function used inside a specification: pure contract → uninterpreted
